@@ -340,7 +340,9 @@ def check_bundled_providers(acc, prop='C01'):
                                   'takes %r) rejected with %r' % (label, level, taken, e), case)
                     continue
                 hdrs = {'Content-Type': 'application/x-www-form-urlencoded'} if body else None
-                res = wsgi.call(app, '/r', method, query=query, headers=hdrs, body=body)
+                # the request also carries parameters / form fields nobody declared (a submit button, a tracking tag)
+                res = wsgi.call(app, '/r', method, query=(query + '&' if query else '') + 'utm_zq=1&submit=go', headers=hdrs,
+                                body=(body + b'&submit=go&csrf_zq=t') if body else body)
                 acc.outcome('bundled-providers:%s' % label)
                 if res.raised is not None or res.code != 200:
                     acc.violation('%s:bundled-provider-request-failed:%s' % (prop, label), '%s at %s level, endpoint takes %r: answered '
